@@ -119,7 +119,12 @@ func (e *escaper) escape(c context, n parse.Node) context {
 	case *parse.WithNode:
 		return e.escapeBranch(c, &n.BranchNode, "with")
 	}
-	panic("escaping " + n.String() + " is unimplemented")
+	// Node types this escaper does not know, such as the {{break}} and {{continue}} nodes of newer
+	// text/template versions, cannot be escaped. Report them like any other escaping problem.
+	return context{
+		state: stateError,
+		err:   errorf(ErrEscapeAction, n, 0, "escaping %s is unimplemented", n),
+	}
 }
 
 // escapeAction escapes an action template node.
